@@ -55,6 +55,7 @@ import (
 	"io"
 	"math"
 	"math/big"
+	mbits "math/bits"
 	"os"
 	"regexp"
 	"sort"
@@ -804,10 +805,10 @@ func checkPresence(c Case, m *model, cf *conf.Conf, doc string, structural bool)
 // ------------------------------------------------------------------------- generators
 
 var (
-	blankGen = rapid.SampledFrom([]string{"", "", "", "", " ", "  ", "\t", " \t", "\t \t", "        "})
+	blankList = []string{"", "", "", " ", "  ", "\t", " \t", "\t \t", "        "}
 
 	domPool = []string{"a", "A", "k", "b", "tars", "application", "server", "client", "x.y", "Obj-1", "_d", "T.S.ObjAdapter", "é", "中"}
-	keyPool = []string{"a", "A", "k", "b", "key", "Key", "endpoint", "locator", "node", "sample-rate", "x.y", "k_1", "a b", "allow", "1", "172.6.8.11", "server", "_d", "é", "no-such-domain"}
+	keyPool = []string{"a", "A", "k", "b", "key", "Key", "endpoint", "locator", "node", "sample-rate", "x.y", "k_1", "a b", "allow", "1", "172.6.8.11", "server", "_d", "é"}
 
 	nameFirst = []rune("abcdefghijklmnopqrstuvwxyzABCDEFGHIJKLMNOPQRSTUVWXYZ_")
 	nameRest  = []rune("abcdefghijklmnopqrstuvwxyzABCDEFGHIJKLMNOPQRSTUVWXYZ_0123456789.-")
@@ -822,8 +823,8 @@ var (
 	fragments = []string{
 		"&", "&&", "& ", "&x", "&nosuch;", "&#;", "&amp", // bad references
 		"<", "< ", "<1", "<zq", "<zq>", "</zc>", "<zq x>", "]]>", // bad markup
-		"\x01", "\x00", "\x0c", "\x1b", "￾", // not XML characters
-		"&amp;", "&lt;", "&gt;", "&quot;", "&#65;", "<zq/>", "<zq></zq>", "<!--c-->", "<![CDATA[c]]>", "<?pi c?>", // well-formed, one line
+		"\x01", "\x00", "\x0c", "\x1b", "\ufffe", // not XML characters
+		"&amp;", "&lt;", "&gt;", "&quot;", "&#65;", "<zq/>", "<zq></zq>", "<!--c-->", "<![CDATA[~c]]>", "<?pi c?>", // well-formed, one line
 		"\"", "'", "\"q\"", "'q'", // quotes (harmless in character data)
 	}
 )
@@ -837,7 +838,7 @@ func alphabet(without string) []rune {
 		}
 		r = append(r, c)
 	}
-	return append(r, 'é', 'ü', '中', '😀', ' ', '\t')
+	return append(r, 'é', 'ü', '中', '😀', '\u00a0', ' ', '\t')
 }
 
 func clean(s string) string {
@@ -862,6 +863,31 @@ type gen struct {
 	longDone bool
 }
 
+// rapid's integer generators are strongly biased towards small values and the bounds; the
+// structural choices below need roughly uniform weights, so they are built from single
+// (unbiased) bits. Shrinking still drives every choice towards 0 = the simplest option.
+func (g *gen) bits(k int, label string) int {
+	v := 0
+	for i := 0; i < k; i++ {
+		v <<= 1
+		if rapid.Bool().Draw(g.rt, label) {
+			v |= 1
+		}
+	}
+	return v
+}
+
+func (g *gen) pct(label string) int { return g.bits(10, label) * 100 / 1024 }
+
+func (g *gen) upto(label string, n int) int {
+	if n <= 0 {
+		return 0
+	}
+	return g.bits(mbits.Len(uint(n))+4, label) % (n + 1)
+}
+
+func pick[T any](g *gen, label string, s []T) T { return s[g.upto(label, len(s)-1)] }
+
 func (g *gen) eol() string {
 	switch g.eolMode {
 	case 0:
@@ -884,8 +910,21 @@ func (g *gen) set(m map[string]map[string]bool, path string) map[string]bool {
 	return s
 }
 
+// junkLetters are the only letters junk lines and hostile fragments may contain; generated
+// names always contain another letter, so injected text never equals a generated name.
+const junkAlphabet = "zqcpix<>/&=#! \n\r\t?-[]\"';:~.,0123456789\x00\x01\x0b\x1b\x7f\x80\xc0\xff"
+
+func junkOnly(s string) bool {
+	for i := 0; i < len(s); i++ {
+		if !strings.Contains(junkAlphabet, s[i:i+1]) {
+			return false
+		}
+	}
+	return true
+}
+
 func xmlNameOK(s string) bool {
-	if s == "" || s == "zq" || s == "zc" || strings.Contains(s, "--") || strings.HasSuffix(s, "-") {
+	if s == "" || junkOnly(s) || strings.Contains(s, "--") || strings.HasSuffix(s, "-") {
 		return false
 	}
 	for i, r := range s {
@@ -914,7 +953,7 @@ func (g *gen) domName(path string) string {
 	keys, subs := g.set(g.keys, path), g.set(g.subs, path)
 	var name string
 	switch {
-	case g.class == "C" && len(keys) > 0 && rapid.IntRange(0, 9).Draw(rt, "collideD") < 5:
+	case g.class == "C" && len(keys) > 0 && g.pct("collideD")/10 < 5:
 		var cand []string
 		for _, k := range sortedKeys(keys) {
 			if xmlNameOK(k) {
@@ -922,13 +961,13 @@ func (g *gen) domName(path string) string {
 			}
 		}
 		if len(cand) > 0 {
-			name = rapid.SampledFrom(cand).Draw(rt, "dname")
+			name = pick(g, "dname", cand)
 			break
 		}
 		fallthrough
 	default:
-		if rapid.IntRange(0, 9).Draw(rt, "dpool") < 8 {
-			name = rapid.SampledFrom(domPool).Draw(rt, "dname")
+		if g.pct("dpool")/10 < 8 {
+			name = pick(g, "dname", domPool)
 		} else {
 			name = string(rapid.RuneFrom(nameFirst).Draw(rt, "d0")) + rapid.StringOfN(rapid.RuneFrom(nameRest), 0, 6, -1).Draw(rt, "drest")
 			if !xmlNameOK(name) {
@@ -956,33 +995,34 @@ func (g *gen) keyName(path string) string {
 	rt := g.rt
 	keys, subs := g.set(g.keys, path), g.set(g.subs, path)
 	var key string
-	r := rapid.IntRange(0, 99).Draw(rt, "kmode")
+	r := g.pct("kmode")
 	switch {
-	case g.class == "C" && len(subs) > 0 && r < 35:
-		key = rapid.SampledFrom(sortedKeys(subs)).Draw(rt, "key")
-	case len(keys) > 0 && r < 55:
-		key = rapid.SampledFrom(sortedKeys(keys)).Draw(rt, "key") // duplicate: later wins
-	case r < 85:
-		key = rapid.SampledFrom(keyPool).Draw(rt, "key")
-	case r < 90 && !g.plain:
-		key = "/" + rapid.SampledFrom([]string{"usr/local/app", "a", "x/y z"}).Draw(rt, "key")
+	case g.class == "C" && len(subs) > 0 && r < 30:
+		key = pick(g, "key", sortedKeys(subs))
+	case len(keys) > 0 && r >= 30 && r < 55:
+		key = pick(g, "key", sortedKeys(keys)) // duplicate: later wins
+	case r < 88:
+		key = pick(g, "key", keyPool)
+	case r < 92 && !g.plain:
+		key = "/" + pick(g, "key", []string{"usr/local/app", "a", "x/y z"})
 	default:
 		al := keyAlphaF
 		if g.plain {
 			al = keyAlphaP
 		}
 		key = clean(rapid.StringOfN(rapid.RuneFrom(al), 1, 8, -1).Draw(rt, "key"))
-		key = strings.TrimLeft(key, "#")
-		key = clean(key)
-		if key == "" || key == "zq" || key == "zc" {
-			key = "rk"
+		for strings.HasPrefix(key, "#") {
+			key = clean(strings.TrimLeft(key, "#"))
+		}
+		if key == "" || junkOnly(key) {
+			key = "rk" + key
 		}
 	}
 	if subs[key] {
 		if g.class == "C" {
 			g.collided = true
 		} else {
-			for subs[key] || (keys[key] && false) {
+			for subs[key] {
 				key += "_k"
 			}
 		}
@@ -1002,34 +1042,34 @@ var (
 
 func (g *gen) value() string {
 	rt := g.rt
-	r := rapid.IntRange(0, 99).Draw(rt, "vmode")
+	r := g.pct("vmode")
 	var v string
 	switch {
 	case r < 12:
-		v = rapid.SampledFrom(intVals).Draw(rt, "v")
+		v = pick(g, "v", intVals)
 	case r < 18:
 		v = strconv.FormatInt(rapid.Int64().Draw(rt, "v"), 10)
 	case r < 24:
 		v = strconv.Itoa(rapid.IntRange(-100000, 100000).Draw(rt, "v"))
 	case r < 32:
-		v = rapid.SampledFrom(boolVals).Draw(rt, "v")
+		v = pick(g, "v", boolVals)
 	case r < 38:
-		v = rapid.SampledFrom(floatVals).Draw(rt, "v")
+		v = pick(g, "v", floatVals)
 	case r < 42:
 		f := rapid.Float64().Draw(rt, "v")
 		if math.IsNaN(f) || math.IsInf(f, 0) {
 			f = 0.5
 		}
-		v = strconv.FormatFloat(f, byte(rapid.SampledFrom([]rune{'g', 'e', 'f'}).Draw(rt, "fmt")), -1, 64)
+		v = strconv.FormatFloat(f, byte(pick(g, "fmt", []rune{'g', 'e', 'f'})), -1, 64)
 		if len(v) > 400 {
 			v = "1.25"
 		}
 	case r < 52:
-		v = rapid.SampledFrom(badVals).Draw(rt, "v")
+		v = pick(g, "v", badVals)
 	case r < 70:
-		v = rapid.SampledFrom(textVals).Draw(rt, "v")
+		v = pick(g, "v", textVals)
 	case r < 78 && !g.plain:
-		v = rapid.SampledFrom(fullVals).Draw(rt, "v")
+		v = pick(g, "v", fullVals)
 	default:
 		al := fullAlpha
 		if g.plain {
@@ -1048,20 +1088,36 @@ func (g *gen) text() string {
 	return clean(rapid.StringOfN(rapid.RuneFrom(al), 0, 10, -1).Draw(g.rt, "txt"))
 }
 
+// post is the text after a hostile fragment: it starts with '~' (never part of a generated
+// domain name, so text split off by a tag-like fragment cannot collide with a sub-domain) and
+// contains neither '=' nor '/'.
+func (g *gen) post(mayBeEmpty bool) string {
+	if mayBeEmpty {
+		switch g.pct("postmode")/25 {
+		case 0:
+			return ""
+		case 1:
+			return "z"
+		}
+	}
+	t := strings.NewReplacer("=", "", "/", "").Replace(g.text())
+	return trimBlanks("~" + t)
+}
+
 func (g *gen) pads(l *Line) {
-	if rapid.IntRange(0, 9).Draw(g.rt, "padded") < 6 {
+	if g.pct("padded")/10 < 6 {
 		for i := range l.P {
-			l.P[i] = blankGen.Draw(g.rt, "pad")
+			l.P[i] = pick(g, "pad", blankList)
 		}
 	}
 }
 
-func (g *gen) frag() string { return rapid.SampledFrom(fragments).Draw(g.rt, "frag") }
+func (g *gen) frag() string { return pick(g, "frag", fragments) }
 
 func (g *gen) kv(path string) {
 	rt := g.rt
 	l := Line{T: tKV, E: g.eol(), Eq: true}
-	form := rapid.IntRange(0, 19).Draw(rt, "form")
+	form := g.pct("form")/5
 	switch {
 	case form == 0:
 		l.N = "" // "=v": listed as a line, defines no key
@@ -1079,32 +1135,23 @@ func (g *gen) kv(path string) {
 	if !l.Eq {
 		l.P[1], l.P[2] = "", ""
 	}
-	if g.class == "A" && !g.longDone && l.Eq && rapid.IntRange(0, 299).Draw(rt, "long") == 0 {
+	if g.class == "A" && !g.longDone && l.Eq && g.bits(9, "long") == 511 {
 		l.V, l.R = "x", rapid.IntRange(65536, 70000).Draw(rt, "longlen")
 		g.longDone = true
 	}
-	if g.class == "B" && rapid.IntRange(0, 9).Draw(rt, "hostile") < 3 {
+	if g.class == "B" && g.pct("hostile")/10 < 3 {
 		g.hostile++
 		f := g.frag()
-		if l.Eq && rapid.IntRange(0, 9).Draw(rt, "inval") < 8 {
+		if l.Eq && g.pct("inval")/10 < 8 {
 			// fragment inside the value; the text after it holds no '='
-			post := strings.ReplaceAll(g.text(), "=", "")
-			l.V = clean(trimBlanks(l.V) + f + post)
-			if l.V == "" {
-				l.V = "v" + f
-			}
-			l.V = trimBlanks(l.V)
+			l.V = trimBlanks(l.V) + f + g.post(true)
 		} else {
 			// fragment inside the key, after a non-empty neutral prefix
 			pre := l.N
 			if pre == "" {
 				pre = "hk"
 			}
-			l.N = trimBlanks(pre + f + strings.ReplaceAll(g.text(), "=", ""))
-			l.N = strings.ReplaceAll(l.N, "/", "")
-			if l.N == "" {
-				l.N = "hk" + f
-			}
+			l.N = pre + f + g.post(false)
 		}
 	}
 	g.lines = append(g.lines, l)
@@ -1113,22 +1160,22 @@ func (g *gen) kv(path string) {
 func (g *gen) comment() {
 	l := Line{T: tComment, E: g.eol(), V: g.text()}
 	if rapid.Bool().Draw(g.rt, "likekv") {
-		l.V = " " + rapid.SampledFrom(keyPool).Draw(g.rt, "ck") + "=" + g.value()
+		l.V = " " + pick(g, "ck", keyPool) + "=" + g.value()
 	}
-	if g.class == "B" && rapid.IntRange(0, 9).Draw(g.rt, "hostileC") < 2 {
+	if g.class == "B" && g.pct("hostileC")/10 < 2 {
 		g.hostile++
-		l.V += g.frag() + strings.ReplaceAll(g.text(), "=", "")
+		l.V += g.frag() + g.post(false)
 	}
 	if rapid.Bool().Draw(g.rt, "cpad") {
-		l.P[0] = blankGen.Draw(g.rt, "pad")
-		l.P[3] = blankGen.Draw(g.rt, "pad")
+		l.P[0] = pick(g, "pad", blankList)
+		l.P[3] = pick(g, "pad", blankList)
 	}
 	g.lines = append(g.lines, l)
 }
 
 func (g *gen) blank() {
 	l := Line{T: tBlank, E: g.eol()}
-	l.P[0] = blankGen.Draw(g.rt, "pad")
+	l.P[0] = pick(g, "pad", blankList)
 	g.lines = append(g.lines, l)
 }
 
@@ -1137,8 +1184,8 @@ func (g *gen) sub(path []string, spine bool) {
 	o := Line{T: tOpen, N: name, E: g.eol()}
 	cl := Line{T: tClose, N: name}
 	if rapid.Bool().Draw(g.rt, "tagpad") {
-		o.P[0], o.P[3] = blankGen.Draw(g.rt, "pad"), blankGen.Draw(g.rt, "pad")
-		cl.P[0], cl.P[3] = blankGen.Draw(g.rt, "pad"), blankGen.Draw(g.rt, "pad")
+		o.P[0], o.P[3] = pick(g, "pad", blankList), pick(g, "pad", blankList)
+		cl.P[0], cl.P[3] = pick(g, "pad", blankList), pick(g, "pad", blankList)
 	}
 	g.lines = append(g.lines, o)
 	g.body(append(append([]string(nil), path...), name), spine)
@@ -1147,12 +1194,11 @@ func (g *gen) sub(path []string, spine bool) {
 }
 
 func (g *gen) body(path []string, spine bool) {
-	rt := g.rt
 	depth := len(path)
-	n := rapid.IntRange(0, 7).Draw(rt, "items")
+	n := pick(g, "items", []int{0, 1, 2, 3, 3, 4, 5, 6, 7})
 	spineAt := -1
 	if spine && depth < g.maxDepth {
-		spineAt = rapid.IntRange(0, n).Draw(rt, "spineAt")
+		spineAt = g.upto("spineAt", n)
 	}
 	p := strings.Join(path, "/")
 	for i := 0; i <= n; i++ {
@@ -1163,7 +1209,7 @@ func (g *gen) body(path []string, spine bool) {
 			continue
 		}
 		g.budget--
-		r := rapid.IntRange(0, 99).Draw(rt, "item")
+		r := g.pct("item")
 		switch {
 		case r < 52:
 			g.kv(p)
@@ -1184,25 +1230,25 @@ func (g *gen) body(path []string, spine bool) {
 func drawDoc(rt *rapid.T, class string) *gen {
 	g := &gen{rt: rt, class: class, plain: class == "B" || class == "M",
 		keys: map[string]map[string]bool{}, subs: map[string]map[string]bool{}}
-	g.maxDepth = rapid.SampledFrom([]int{0, 1, 2, 2, 3, 3, 4, 5, 6}).Draw(rt, "maxDepth")
-	g.budget = rapid.IntRange(4, 60).Draw(rt, "budget")
-	g.eolMode = rapid.SampledFrom([]int{0, 0, 1, 2}).Draw(rt, "eolMode")
-	g.body(nil, rapid.IntRange(0, 9).Draw(rt, "spine") < 7)
+	g.maxDepth = pick(g, "maxDepth", []int{0, 1, 2, 2, 3, 3, 4, 5, 6})
+	g.budget = pick(g, "budget", []int{4, 8, 12, 20, 30, 45, 60})
+	g.eolMode = pick(g, "eolMode", []int{0, 0, 1, 2})
+	g.body(nil, g.pct("spine")/10 < 7)
 	return g
 }
 
 func finish(rt *rapid.T, g *gen, c *Case) {
 	c.Lines = g.lines
-	if n := len(c.Lines); n > 0 && c.Lines[n-1].T != tRaw && rapid.IntRange(0, 4).Draw(rt, "noFinalEOL") == 0 {
+	if n := len(c.Lines); n > 0 && c.Lines[n-1].T != tRaw && g.pct("noFinalEOL") < 20 {
 		c.Lines[n-1].E = ""
 	}
 	c.Bytes = rapid.Bool().Draw(rt, "viaBytes")
 	c.Slash = rapid.Bool().Draw(rt, "slash")
 	c.Def = Defaults{
-		S:   rapid.SampledFrom([]string{"DEF", "", "0", "default value", "tcp -h 127.0.0.1"}).Draw(rt, "defS"),
-		I:   rapid.OneOf(rapid.IntRange(-1000, 1000), rapid.SampledFrom([]int{-7, 10000, math.MaxInt32, math.MinInt64, 0})).Draw(rt, "defI"),
-		I32: rapid.OneOf(rapid.Int32(), rapid.SampledFrom([]int32{-7, 200000, 0})).Draw(rt, "defI32"),
-		F:   rapid.SampledFrom([]float64{-1.5, 0, 1, 0.25, 1e100, -3}).Draw(rt, "defF"),
+		S:   pick(g, "defS", []string{"DEF", "", "0", "default value", "tcp -h 127.0.0.1"}),
+		I:   pick(g, "defI", []int{-7, 10000, 1, -1000, 77, math.MaxInt32, math.MinInt64, 0}),
+		I32: pick(g, "defI32", []int32{-7, 200000, 1, math.MaxInt32, math.MinInt32, 0, 12345}),
+		F:   pick(g, "defF", []float64{-1.5, 0, 1, 0.25, 1e100, -3}),
 	}
 	c.Absent = rapid.SliceOfN(rapid.SampledFrom(append([]string{"nosuchkey", "Endpoint", "KEY", "x"}, keyPool...)), 1, 4).Draw(rt, "absent")
 }
@@ -1217,7 +1263,7 @@ func drawA(rt *rapid.T) Case {
 func drawB(rt *rapid.T) Case {
 	g := drawDoc(rt, "B")
 	if g.hostile == 0 {
-		g.lines = append(g.lines, Line{T: tKV, N: "hk", Eq: true, V: "a" + g.frag() + "b", E: g.eol()})
+		g.lines = append(g.lines, Line{T: tKV, N: "hk", Eq: true, V: "a" + g.frag() + "~b", E: g.eol()})
 	}
 	c := Case{Class: "B"}
 	finish(rt, g, &c)
@@ -1241,7 +1287,15 @@ func drawC(rt *rapid.T) Case {
 	return c
 }
 
+// junkByte: markup-biased bytes for junk lines inside a modelled document (letters
+// restricted to junkAlphabet so that injected keys/tags cannot collide with generated names).
 var junkByte = rapid.OneOf(
+	rapid.SampledFrom([]byte("<<<>>>//&&==##  \n\r\t!?-[]\"'zq;:~")),
+	rapid.SampledFrom([]byte(junkAlphabet)),
+)
+
+// anyByte: for the pure random-bytes sub-check (no model).
+var anyByte = rapid.OneOf(
 	rapid.SampledFrom([]byte("<<<>>>//&&==##  \n\r\t!?-[]\"'abkzq;:x")),
 	rapid.Byte(),
 )
@@ -1256,13 +1310,13 @@ func drawM(rt *rapid.T) Case {
 			tags = append(tags, i)
 		}
 	}
-	kind := rapid.IntRange(0, 6).Draw(rt, "edit")
+	kind := g.upto("edit", 6)
 	if len(tags) == 0 && kind >= 2 && kind <= 4 {
 		kind = 5
 	}
 	switch kind {
 	case 0, 1: // junk line(s): markup-biased random bytes
-		at := rapid.IntRange(0, len(lines)).Draw(rt, "at")
+		at := g.upto("at", len(lines))
 		junk := rapid.SliceOfN(junkByte, 1, 24).Draw(rt, "junk")
 		raw := Line{T: tRaw, Raw: junk, E: "\n"}
 		lines = append(append(append([]Line(nil), lines[:at]...), raw), lines[at:]...)
@@ -1271,23 +1325,23 @@ func drawM(rt *rapid.T) Case {
 		}
 		c.Edit = "junk"
 	case 2: // drop one tag line (open or close)
-		at := rapid.SampledFrom(tags).Draw(rt, "at")
+		at := pick(g, "at", tags)
 		lines = append(append([]Line(nil), lines[:at]...), lines[at+1:]...)
 		c.Edit, c.Prefix = "struct", at
 	case 3: // rename one close tag (or open tag): mismatch
-		at := rapid.SampledFrom(tags).Draw(rt, "at")
+		at := pick(g, "at", tags)
 		lines = append([]Line(nil), lines...)
-		lines[at].N = rapid.SampledFrom([]string{"zc", "zq", lines[at].N + "x", strings.ToUpper(lines[at].N) + "_"}).Draw(rt, "newname")
+		lines[at].N = pick(g, "newname", []string{"zc", "zq", lines[at].N + "x", strings.ToUpper(lines[at].N) + "_"})
 		c.Edit, c.Prefix = "struct", at
 	case 4: // turn an open tag into a close tag or vice versa
-		at := rapid.SampledFrom(tags).Draw(rt, "at")
+		at := pick(g, "at", tags)
 		lines = append([]Line(nil), lines...)
 		lines[at].T = tOpen + tClose - lines[at].T
 		c.Edit, c.Prefix = "struct", at
 	default: // truncate, possibly inside a tag
-		at := rapid.IntRange(0, len(lines)).Draw(rt, "at")
+		at := g.upto("at", len(lines))
 		lines = append([]Line(nil), lines[:at]...)
-		tail := rapid.SampledFrom([]string{"", "", "<", "<ta", "</", "</ta", "<tars", "<a b=\"", "<!--", "<![CDATA[", "<?", "<zq>", "</zc>", "&"}).Draw(rt, "tail")
+		tail := pick(g, "tail", []string{"", "", "<", "<ta", "</", "</ta", "<tars", "<a b=\"", "<!--", "<![CDATA[", "<?", "<zq>", "</zc>", "&"})
 		if tail != "" {
 			if at > 0 && lines[at-1].E == "" {
 				lines[at-1].E = "\n"
@@ -1308,7 +1362,7 @@ type BytesCase struct {
 }
 
 func drawBytes(rt *rapid.T) BytesCase {
-	return BytesCase{B: rapid.SliceOfN(junkByte, 0, 96).Draw(rt, "bytes")}
+	return BytesCase{B: rapid.SliceOfN(anyByte, 0, 96).Draw(rt, "bytes")}
 }
 
 func runBytes(c BytesCase) (fail *stat.Failure) {
@@ -1397,9 +1451,9 @@ func TestC17(t *testing.T) {
 		}
 		stat.Pinned(t, st, "pinned", ok, run)
 	}
-	stat.Check(t, st, "classA", stat.N(9000, 900000), drawA, run)
-	stat.Check(t, st, "classB", stat.N(4000, 400000), drawB, run)
-	stat.Check(t, st, "classC", stat.N(2000, 200000), drawC, run)
-	stat.Check(t, st, "malformed", stat.N(5000, 500000), drawM, run)
-	stat.Check(t, st, "bytes", stat.N(20000, 2000000), drawBytes, runBytes)
+	stat.Check(t, st, "classA", stat.N(9000, 60000), drawA, run)
+	stat.Check(t, st, "classB", stat.N(4000, 25000), drawB, run)
+	stat.Check(t, st, "classC", stat.N(2000, 12000), drawC, run)
+	stat.Check(t, st, "malformed", stat.N(5000, 30000), drawM, run)
+	stat.Check(t, st, "bytes", stat.N(20000, 125000), drawBytes, runBytes)
 }
